@@ -64,3 +64,53 @@ def fmt_path(path: list[Node], limit: int = 14) -> list[str]:
 
 def contains_call_to(n: Node, pred: Callable[[ast.Call], bool]) -> bool:
     return any(pred(c) for c in node_calls(n))
+
+
+# ------------------------------------------------------------------ disjunctive analysis
+class TooManyStates(Exception):
+    pass
+
+
+def disjunctive(cfg: CFG, init: frozenset, step: Callable[[Node, frozenset, str], "frozenset | None"], cap: int = 256) -> dict[Node, frozenset]:
+    """Path-sensitive (up to the tokens tracked) forward analysis: the fact at a node is the SET
+    of token-sets that can reach it.  step(node, state, label) returns the state along the edge
+    `label` or None if that edge is infeasible for this state."""
+
+    def transfer(n: Node, states: frozenset) -> dict:
+        out: dict[str, frozenset] = {}
+        for label, _ in n.succ:
+            acc = set()
+            for s in states:
+                r = step(n, s, label)
+                if r is not None:
+                    acc.add(r)
+            if len(acc) > cap:
+                raise TooManyStates(f"{cfg.func.key}: more than {cap} abstract states at {n!r}")
+            out[label] = frozenset(acc)
+        return out or {"*": states}
+
+    from .cfg import BOTTOM
+
+    def edge(a: Node, l: str, b: Node, f: frozenset):
+        return f if f else BOTTOM
+
+    return forward(cfg, frozenset([init]), transfer, lambda a, b: a | b, edge=edge)
+
+
+def const_flag_step(n: Node, state: frozenset, label: str, flags: set[str]) -> "frozenset | None":
+    """Track local boolean flags assigned constants (`flag = True/False`) and prune the
+    infeasible edge of a test on such a flag.  Tokens: 'flag:<name>=T' / 'flag:<name>=F'."""
+    if n.kind == "stmt" and isinstance(n.ast, (ast.Assign, ast.AnnAssign)) and label != "exc":
+        tgts = n.ast.targets if isinstance(n.ast, ast.Assign) else [n.ast.target]
+        for t in tgts:
+            if isinstance(t, ast.Name) and t.id in flags:
+                state = frozenset(x for x in state if not x.startswith(f"flag:{t.id}="))
+                v = n.ast.value
+                if isinstance(v, ast.Constant) and isinstance(v.value, bool):
+                    state = state | {f"flag:{t.id}={'T' if v.value else 'F'}"}
+    if n.kind == "cond" and isinstance(n.ast, ast.Name) and n.ast.id in flags and label in ("true", "false"):
+        want = "T" if label == "true" else "F"
+        other = "F" if want == "T" else "T"
+        if f"flag:{n.ast.id}={other}" in state:
+            return None
+    return state
